@@ -517,3 +517,59 @@ for _p in ('C11', 'C05', 'C16', 'C02'):
     M(_p, 'magnitude bins written onto the shared region again', 'C11-D5.ownmags', (REG, '    region = copy.copy(region)\n    region.magnitudes = magnitudes', '    region.magnitudes = magnitudes'))
 E('C11', 'magnitude bins on a deep copy of the region', (REG, '    region = copy.copy(region)\n    region.magnitudes = magnitudes', '    region = copy.deepcopy(region)\n    region.magnitudes = magnitudes'))
 M('C11', 'forecast drops the region that carries its bins', 'C11-D5.ownregion', (FOR, '        self.region = create_space_magnitude_region(self.region, magnitudes)', '        create_space_magnitude_region(self.region, magnitudes)'))
+
+# ------------------------------------------------------------------------------------------------ round 5 rules
+_MB_OLD = 'def magnitude_bins(start_magnitude, end_magnitude, dmw):'
+M('C02', 'magnitude_bins fills a missing start by truthiness', 'C02-D5.magbins',
+  (REG, _MB_OLD, 'def magnitude_bins(start_magnitude=None, end_magnitude=None, dmw=None):'),
+  (REG, '    return cleaner_range(start_magnitude, end_magnitude, dmw)', '    start_magnitude = start_magnitude or 2.5\n    return cleaner_range(start_magnitude, end_magnitude, dmw)'))
+E('C02', 'magnitude_bins fills a missing start after a None test',
+  (REG, _MB_OLD, 'def magnitude_bins(start_magnitude=None, end_magnitude=None, dmw=None):'),
+  (REG, '    return cleaner_range(start_magnitude, end_magnitude, dmw)', '    if start_magnitude is None:\n        start_magnitude = 2.5\n    return cleaner_range(start_magnitude, end_magnitude, dmw)'))
+_RS_OLD = '                mag_bins = CSEP_MW_BINS\n                self.region.magnitudes = mag_bins\n                self.region.num_mag_bins = len(mag_bins)\n'
+for _p in ('C02', 'C03'):
+    M(_p, 'explicit magnitude bins written into the shared region', 'C03-D6.local',
+      (CAT, _RS_OLD, '                mag_bins = CSEP_MW_BINS\n        if self.region is not None:\n            self.region.magnitudes = mag_bins\n            self.region.num_mag_bins = len(mag_bins)\n'))
+E('C03', 'default bins bound to the region in a nested None branch',
+  (CAT, _RS_OLD, '                mag_bins = CSEP_MW_BINS\n                if self.region is not None:\n                    self.region.magnitudes = mag_bins\n                    self.region.num_mag_bins = len(mag_bins)\n'))
+M('C03', 'located points remembered on the quadtree class', 'C03-D6.lookup',
+  (REG, "    def _find_location(self, lon, lat):", "    _seen = {}\n\n    def _find_location(self, lon, lat):"),
+  (REG, "        loc = numpy.logical_and(numpy.logical_and(lon >= self.bounds[:, 0], lat >= self.bounds[:, 1]),", "        if (lon, lat) in self._seen:\n            return self._seen[(lon, lat)]\n        self._seen[(lon, lat)] = numpy.array([], dtype=int)\n        loc = numpy.logical_and(numpy.logical_and(lon >= self.bounds[:, 0], lat >= self.bounds[:, 1]),"))
+for _p, _r in (('C05', 'C05-D5.double'), ('C06', 'C06-D4.double'), ('C07', 'C07-D1.double'), ('C08', 'C08-D4.double'), ('C11', 'C11-D1.double'), ('C16', 'C16-D3.double')):
+    M(_p, 'rates stored in single precision', _r, (FOR, '        self._data = data\n', '        self._data = data if data is None else numpy.asarray(data, dtype=numpy.float32)\n'))
+    E(_p, 'rates stored as a double array', (FOR, '        self._data = data\n', '        self._data = data if data is None else numpy.asarray(data, dtype=numpy.float64)\n'))
+M('C06', 'spatial marginal accumulated in half the precision', 'C06-D4.double', (FOR, '            return numpy.sum(self.data, axis=1)\n', "            return numpy.sum(self.data, axis=1, dtype='float32')\n"))
+M('C17', 'tile bounds kept in single precision', 'C17-D4.double', (REG, '        self.bounds = bounds\n        self.cell_area = []', '        self.bounds = numpy.asarray(bounds).astype(numpy.float32)\n        self.cell_area = []'))
+M('C01', 'cell edges kept in single precision', 'C01-D1.double', (REG, '        self.xs = xs\n', '        self.xs = numpy.float32(xs)\n'))
+M('C06', 'brier wrapper normalises its seed by truthiness', 'C06-D1.forward', (BRI, '    # grid catalog onto spatial grid\n    try:\n        _ = observed_catalog.region.magnitudes', '    seed = int(seed) if seed else None\n    # grid catalog onto spatial grid\n    try:\n        _ = observed_catalog.region.magnitudes'))
+E('C06', 'brier wrapper converts a given seed to int', (BRI, '    # grid catalog onto spatial grid\n    try:\n        _ = observed_catalog.region.magnitudes', '    if seed is not None:\n        seed = int(seed)\n    # grid catalog onto spatial grid\n    try:\n        _ = observed_catalog.region.magnitudes'))
+for _p in ('C10', 'C13'):
+    M(_p, 'filters default to one shared list', 'G-DEFAULT', (FOR, 'filter_spatial=False, filters=None, apply_mct=False,', 'filter_spatial=False, filters=[], apply_mct=False,'), (FOR, '        self.filters = filters or []\n', '        self.filters = filters\n'))
+    E(_p, 'filters default to a list that is copied', (FOR, 'filter_spatial=False, filters=None, apply_mct=False,', 'filter_spatial=False, filters=[], apply_mct=False,'), (FOR, '        self.filters = filters or []\n', '        self.filters = list(filters)\n'))
+M('C13', 'cursor rewound before the number of catalogs is read', 'C13-D2.count',
+  (FOR, '                self.n_cat = self._idx\n                self._idx = 0\n                raise StopIteration()', '                self._idx = 0\n                self.n_cat = self._idx\n                raise StopIteration()'))
+M('C14', 'catalog id of a frame kept only when truthy', 'C14-D7.fromdf', (CAT, "            catalog_id = df['catalog_id'].iloc[0]\n", "            catalog_id = df['catalog_id'].iloc[0]\n            catalog_id = int(catalog_id) if catalog_id else None\n"))
+E('C14', 'catalog id of a frame converted after a None test', (CAT, "            catalog_id = df['catalog_id'].iloc[0]\n", "            catalog_id = df['catalog_id'].iloc[0]\n            catalog_id = int(catalog_id) if catalog_id is not None else None\n"))
+for _p in ('C14', 'C18'):
+    M(_p, 'regions rebuilt from a dictionary are kept on the class', 'C18-D5.fromdict',
+      (REG, '    def __init__(self, polygons, dh, name=\'cartesian2d\', mask=None, magnitudes=None):', '    _built = {}\n\n    def __init__(self, polygons, dh, name=\'cartesian2d\', mask=None, magnitudes=None):'),
+      (REG, '        out = cls.from_origins(origins, dh=dh, magnitudes=magnitudes, name=name)\n        return out', '        if name not in cls._built:\n            cls._built[name] = cls.from_origins(origins, dh=dh, magnitudes=magnitudes, name=name)\n        return cls._built[name]'))
+M('C18', 'region dictionary built once and handed out again', 'C18-D5.todict',
+  (REG, "    def to_dict(self):\n        adict = {\n            'name': str(self.name),\n            'dh': float(self.dh),\n            'polygons': [{'lat': float(poly.origin[1]), 'lon': float(poly.origin[0])} for poly in self.polygons],\n            'class_id': self.__class__.__name__\n        }\n        return adict",
+   "    def to_dict(self):\n        if getattr(self, '_adict', None) is not None:\n            return self._adict\n        adict = {\n            'name': str(self.name),\n            'dh': float(self.dh),\n            'polygons': [{'lat': float(poly.origin[1]), 'lon': float(poly.origin[0])} for poly in self.polygons],\n            'class_id': self.__class__.__name__\n        }\n        self._adict = adict\n        return adict"))
+M('C15', 'datetimes of a catalog computed once', 'C15-D1.live', (CAT, '        return list(map(epoch_time_to_utc_datetime, self.get_epoch_times()))\n', "        if getattr(self, '_dts', None) is None:\n            self._dts = list(map(epoch_time_to_utc_datetime, self.get_epoch_times()))\n        return self._dts\n"))
+M('C15', 'forecast start time converted through the local zone', 'C15-D2.local', (FOR, '        # start and end time of the forecast\n        self.start_time = start_time\n', '        self.start_time = start_time.astimezone(datetime.timezone.utc) if start_time is not None else None\n'))
+E('C15', 'aware forecast start time converted to UTC', (FOR, '        # start and end time of the forecast\n        self.start_time = start_time\n', '        self.start_time = start_time\n        if start_time is not None and start_time.tzinfo is not None:\n            self.start_time = start_time.astimezone(datetime.timezone.utc)\n'))
+M('C17', 'cell areas computed once', 'C17-D4.areafresh',
+  (REG, "        cell_area = numpy.array([geographical_area_from_bounds(bb[0],bb[1],bb[2],bb[3]) for bb in self.bounds])\n        self.cell_area = cell_area\n        return self.cell_area",
+   "        if len(self.cell_area) != len(self.bounds):\n            self.cell_area = numpy.array([geographical_area_from_bounds(bb[0],bb[1],bb[2],bb[3]) for bb in self.bounds])\n        return self.cell_area"))
+E('C17', 'cell areas returned without the temporary', (REG, "        cell_area = numpy.array([geographical_area_from_bounds(bb[0],bb[1],bb[2],bb[3]) for bb in self.bounds])\n        self.cell_area = cell_area\n        return self.cell_area",
+   "        self.cell_area = numpy.array([geographical_area_from_bounds(bb[0],bb[1],bb[2],bb[3]) for bb in self.bounds])\n        return self.cell_area"))
+M('C20', 'at-least short circuit on the stored order', 'C09-D2', (STA, '    if val > ex[-1]:\n        return 0.0\n    if val < ex[0]:\n        return 1.0', '    if val > x[-1]:\n        return 0.0\n    if val < x[0]:\n        return 1.0'))
+M('C11', 'cells of a region sorted on construction', 'C20-D3.keeporder', (REG, '        self.polygons = polygons\n        self.poly_mask = mask\n        self.dh = dh', '        self.polygons = sorted(polygons, key=lambda p: tuple(p.origin))\n        self.poly_mask = mask\n        self.dh = dh'))
+M('C11', 'northern tile bound inclusive', 'C17-D1', (REG, 'numpy.logical_and(lon < self.bounds[:, 2], lat < self.bounds[:, 3]))', 'numpy.logical_and(lon < self.bounds[:, 2], lat <= self.bounds[:, 3]))'))
+for _p in ('C05', 'C06', 'C13', 'C16'):
+    M(_p, 'unscaled forecast hands out its stored rates', 'C11-D1.view', (FOR, '        return self._data * self._scale\n', '        if numpy.isscalar(self._scale) and self._scale == 1:\n            return self._data\n        return self._data * self._scale\n'))
+M('C16', 'space-magnitude counts accumulated without the magnitude guard', 'C03-D1',
+  (CAT, '                if mag_idx[idx] == -1:\n                    raise ValueError("at least one magnitude value outside of the valid region.")\n', ''))
+M('C05', 'space-magnitude counts remembered on the catalog', 'C03-D6.pure', (CAT, '                event_counts[(spatial_idx[idx], mag_idx[idx])] += 1\n        return event_counts', '                event_counts[(spatial_idx[idx], mag_idx[idx])] += 1\n        self._last_counts = event_counts\n        return event_counts'))
